@@ -239,9 +239,10 @@ def rule_Q4(ctx) -> None:
     # floor-style integer splitting of a possibly negative total for display needs abs()/sign handling
     floor_ops = [n for n in ast.walk(de) if (isinstance(n, ast.BinOp) and isinstance(n.op, (ast.FloorDiv, ast.Mod))) or
                  (isinstance(n, ast.Call) and ast.unparse(n.func) == "divmod")]
+    # sign handling: abs(), or an ordering comparison with zero (== 0 does not count)
     has_sign = any(isinstance(n, ast.Call) and ast.unparse(n.func) == "abs" for n in ast.walk(de)) or any(
-        isinstance(n, ast.Compare) and any(isinstance(c, ast.Constant) and c.value == 0 for c in [n.left] + n.comparators) for n in ast.walk(de)) \
-        or "timedelta(0)" in ast.unparse(de)
+        isinstance(n, ast.Compare) and isinstance(n.ops[0], (ast.Lt, ast.LtE, ast.Gt, ast.GtE)) and
+        any((isinstance(c, ast.Constant) and c.value == 0) or ast.unparse(c) == "timedelta(0)" for c in [n.left] + n.comparators) for n in ast.walk(de))
     splits_delta = [n for n in floor_ops if "delta" in ast.unparse(n) or "total" in ast.unparse(n) or "us" in ast.unparse(n).lower()]
     if splits_delta and not has_sign:
         ctx.refuted("Q4", "delta_to_json:negative-durations", "floor-split-without-sign", mod.loc(splits_delta[0]),
